@@ -382,8 +382,10 @@ def main(argv):
     cov.update(rep.extra)
     ev = dict(property_id=pid, tier=a.tier, seed=seed, level='proof', coverage=cov,
               assumptions=list(getattr(mod, 'ASSUMPTIONS', [])), wall_s=wall, violations=nviol)
-    os.makedirs(os.path.join(VERIF, 'evidence'), exist_ok=True)
-    json.dump(ev, open(os.path.join(VERIF, 'evidence', pid + '.json'), 'w'), indent=1, default=str)
+    # a --no-build run (development only) checked no theorem: its record is kept apart from the evidence files
+    evdir = os.path.join(VERIF, 'evidence', 'dev') if a.no_build else os.path.join(VERIF, 'evidence')
+    os.makedirs(evdir, exist_ok=True)
+    json.dump(ev, open(os.path.join(evdir, pid + '.json'), 'w'), indent=1, default=str)
     for l in lines:
         print(l)
     log('%s: %d cases (%d distinct non-trivial), %d model comparisons, %d theorems; exit %d' % (
